@@ -6,7 +6,7 @@ from ..ops import *
 from .c04 import judge
 
 IMPORTS = ('From OFV Require Import Base.Cplx Base.Lin Sem.PauliSem Sem.FermiSem Sem.BoseSem Model.SymbolicOp Model.QubitOp Model.LadderOp '
-           'Model.NormalOrder Model.Conjugate Model.Program Check.DictEquiv Check.OpEquiv Check.Commutator Thm.C07.Adjoint.\n')
+           'Model.NormalOrder Model.Conjugate Model.Program Check.DictEquiv Check.OpEquiv Check.Commutator Check.BCH Thm.C07.Adjoint.\n')
 NEEDS = ['Thm/C07/Adjoint', 'Check/Commutator']
 
 def tdict(op): return {repr(t): repr(c) for t, c in op.terms.items()}
@@ -150,5 +150,28 @@ def run(ctx):
         v = te.trivially_double_commutes(Q(ta), Q(tb), Q(tc))
         add('trotter_trivially_double_commutes', '(implb %s (qdcomm_zero [(%s, C1)] [(%s, C1)] [(%s, C1)]))' % (cbool(v), coq_qterm(ta), coq_qterm(tb), coq_qterm(tc)),
             {'call': 'trotter_error.trivially_double_commutes', 'terms': [repr(ta), repr(tb), repr(tc)], 'returned': v}, key=(ta, tb, tc) if v else None)
+    # ---- bch_expand: truncated at order k-1 (or more) it equals log(e^X e^Y ...) exactly on strictly upper
+    #      triangular k x k matrices (nilpotent of class < k); the exact value is computed in Coq
+    from openfermion.utils.bch_expansion import bch_expand
+    from fractions import Fraction
+    def cm(M): return '(' + clist(['(' + clist([cC(complex(x)) for x in r]) + ' : list C)' for r in M.tolist()]) + ' : list (list C))'
+    for i in range(N(20, 120)):
+        k = rng.choice([2, 3, 4, 5] if ctx.quick else [2, 3, 4, 5, 6, 7]); nops = rng.choice([2, 2, 3])
+        mats = []
+        for _ in range(nops):
+            M = np.zeros((k, k), dtype=complex)
+            for a_ in range(k):
+                for b_ in range(a_ + 1, k):
+                    if rng.random() < 0.8: M[a_, b_] = dyc(rng)
+            mats.append(M)
+        order = rng.choice([k - 1, k, 6]) if k <= 7 else 6
+        order = max(order, k - 1)
+        if order > 6: continue          # the implementation supports orders up to 6 for two terms
+        try:
+            out = bch_expand(*mats, order=order)
+        except Exception as e:
+            ctx.violation('C07 bch_expand raised %s: %s' % (type(e).__name__, e), {'k': k, 'order': order}); continue
+        add('bch_expand', '(bch_ok %s %s %s %s)' % (cQ(Fraction(1, 10 ** 16)), cnat(k), '(' + clist([cm(M) for M in mats]) + ' : list (list (list C)))', cm(np.asarray(out))),
+            {'call': 'bch_expand', 'k': k, 'order': order, 'matrices': [repr(M.tolist()) for M in mats]}, key=(k, order, repr([M.tolist() for M in mats])))
     res = coq_eval_bools(ctx, 'c07', IMPORTS, items, chunk=120)
     judge(ctx, res, meta, 'C07')
